@@ -49,6 +49,8 @@ TGSYMPY = "tangelo/linq/target/target_sympy.py"
 VSQSF = "tangelo/toolboxes/ansatz_generator/vsqs.py"
 ADAPTF = "tangelo/toolboxes/ansatz_generator/adapt_ansatz.py"
 JKMNF = "tangelo/toolboxes/qubit_mappings/jkmn.py"
+FROZ = "tangelo/toolboxes/molecular_computation/frozen_orbitals.py"
+POSTS = "tangelo/toolboxes/post_processing/post_selection.py"
 ISP = "tangelo/toolboxes/molecular_computation/integral_solver_pyscf.py"
 
 FIRE = [
@@ -133,6 +135,12 @@ FIRE = [
     ("frequency-threshold-literal", "C01", [(BACK, "            if (frequency - self.freq_threshold) >= 0.:", "            if frequency >= 1e-6:")], "K9.probability-cutoff"),
     ("complex-detection-by-isinstance", "C02", [(BACK, "            if type(coef) in {complex, np.complex64, np.complex128}:\n                are_coefficients_real = False\n\n        # If the underlying operator is hermitian, expectation value is real and can be computed right away\n        if are_coefficients_real:\n            return self._get_variance_from_frequencies", "            if isinstance(coef, complex):\n                are_coefficients_real = False\n\n        # If the underlying operator is hermitian, expectation value is real and can be computed right away\n        if are_coefficients_real:\n            return self._get_variance_from_frequencies")], "K"),
     ("sympy-expectation-transpose", "C02", [(TGSYMPY, "        eigenvalue = Dagger(prepared_state) * operator * prepared_state", "        eigenvalue = prepared_state.T * operator * prepared_state")], "K9.sympy-expectation"),
+    ("clifford-angle-sign-lost", "C09", [(CLIFF, "isclose(gate.parameter % (2 * pi), value % (2 * pi), abs_tol=abs_tol)), None)", "isclose(abs(gate.parameter) % (2 * pi), value % (2 * pi), abs_tol=abs_tol)), None)")], "K9.clifford-angles"),
+    ("frozen-beta-uses-alpha-occupations", "C04", [(FROZ, "            frozen_occupied.append([i for i in frozen_orbitals[e] if i in occupied[e]])", "            frozen_occupied.append([i for i in frozen_orbitals[e] if i in occupied[0]])")], "K9.frozen-partition"),
+    ("uhf-beta-integrals-reused-from-alpha", "C04", [(ISP, "        eri_b = self.ao2mo.incore.full(eri, mo_b)", "        eri_b = eri_a if sqmol.spin == 0 else self.ao2mo.incore.full(eri, mo_b)")], "K10"),
+    ("multiform-operator-shares-terms", "C14", [(MULTI, "        qubit_op.terms = self.terms.copy()", "        qubit_op.terms = self.terms")], "K2.terms-copied"),
+    ("multiform-operator-shares-terms-c16", "C16", [(MULTI, "        qubit_op.terms = self.terms.copy()", "        qubit_op.terms = self.terms")], "K2.terms-copied"),
+    ("last-n-split-heads-overwritten", "C10", [(POSTS, "        freqs1[meas_other] = freqs1.get(meas_other, 0.) + count", "        freqs1[meas_other] = freqs2.get(meas_other, 0.) + count")], "K9.frequency-split"),
     # ---- C06
     ("ladder-not-reversed", "C06", [(AU, "    gates += cnot_ladder_gates[::-1]", "    gates += cnot_ladder_gates")], "K9.exp-pauliword"),
     ("negative-angle-offset", "C06", [(AU, "    angle = 2.*coef if coef >= 0. else 4*np.pi+2*coef", "    angle = 2.*coef if coef >= 0. else 2*np.pi+2*coef")], "K9.angle-law"),
@@ -288,6 +296,8 @@ SILENT = [
     ("complex-detection-spelling", "C02", [(BACK, '            if type(coef) in {complex, np.complex64, np.complex128}:', '            if type(coef) in (np.complex64, np.complex128, complex):', (0, 2)), (BACK, '            if type(coef) in {complex, np.complex64, np.complex128}:', '            if type(coef) in (np.complex64, np.complex128, complex):')]),
     ("vsqs-gate-stride-spelling", "C07", [(VSQSF, "        self.n_var_gates = (self.n_h_init + self.n_h_final + self.n_h_nav) * self.trotter_order", "        self.n_var_gates = self.trotter_order * self.n_h_init + self.trotter_order * (self.n_h_final + self.n_h_nav)")]),
     ("jkmn-elementwise-after-conversion", "C05", [(JKMNF, "    for i, occ in enumerate(vector):\n        if occ == 1:", "    vector = np.asarray(vector)\n    for i in np.flatnonzero(vector == 1):\n        if True:")]),
+    ("clifford-angle-spelling", "C09", [(CLIFF, "isclose(gate.parameter % (2 * pi), value % (2 * pi), abs_tol=abs_tol)), None)", "isclose((gate.parameter - value) % (2 * pi), 0., abs_tol=abs_tol) or isclose((gate.parameter - value) % (2 * pi), 2 * pi, abs_tol=abs_tol)), None)")]),
+    ("frozen-partition-spelling", "C04", [(FROZ, "            frozen_occupied.append([i for i in frozen_orbitals[e] if i in occupied[e]])", "            occ_e = set(occupied[e])\n            frozen_occupied.append([i for i in frozen_orbitals[e] if i in occ_e])")]),
     ("angle-law-spelling", "C06", [(AU, "    angle = 2.*coef if coef >= 0. else 4*np.pi+2*coef", "    angle = 2.*coef + (0. if coef >= 0. else 4*np.pi)")]),
     ("cirq-branches-reordered", "C01", [(TCIRQ, '        elif gate_name in {"SWAP"}:\n            target_circuit.append(GATE_CIRQ[gate_name](qubit_list[gate.target[0]], qubit_list[gate.target[1]]))\n        elif gate_name in {"CSWAP"}:\n            next_gate = GATE_CIRQ[gate_name].controlled(num_controls)\n            target_circuit.append(next_gate(*control_list, qubit_list[gate.target[0]], qubit_list[gate.target[1]]))\n',
                                          '        elif gate_name in {"CSWAP"}:\n            next_gate = GATE_CIRQ[gate_name].controlled(num_controls)\n            target_circuit.append(next_gate(*control_list, qubit_list[gate.target[0]], qubit_list[gate.target[1]]))\n        elif gate_name in {"SWAP"}:\n            target_circuit.append(GATE_CIRQ[gate_name](qubit_list[gate.target[0]], qubit_list[gate.target[1]]))\n')]),
